@@ -1465,6 +1465,33 @@ func (e *c34Env) analyse(fam, format string, s *PkgSpec, data []byte, res *c34Re
 		res.check(x.SigOffset == 96, "signature-header-offset", "the signature header starts at %d, not 96", x.SigOffset)
 		res.check(x.SigPadOK, "signature-header-padding", "the signature header is not padded to an 8-byte boundary")
 		res.check(x.HeaderOffset%8 == 0, "header-not-8-aligned", "the main header starts at offset %d", x.HeaderOffset)
+		// byte-level cpio model: the decompressed payload must be exactly what the model writer renders from the
+		// payload's own decoded entries (inodes 1.., hex fields, name/body padding, trailer), and the Lean reader
+		// must recover the same entries as the Go reader
+		if len(x.Payload) > 0 && len(x.Payload) <= e.segCap/4 {
+			var req, want strings.Builder
+			fmt.Fprintf(&req, "cpiofile %d", len(x.Cpio))
+			fmt.Fprintf(&want, "%d", len(x.Cpio))
+			for _, ce := range x.Cpio {
+				fmt.Fprintf(&req, " %s %d %d %s", wire.H(ce.Name), ce.Mode, ce.Nlink, wire.H(string(ce.Body)))
+				fmt.Fprintf(&want, " %d %s %d %d %d", ce.Ino, wire.H(ce.Name), ce.Mode, ce.Nlink, len(ce.Body))
+			}
+			res.TarCompared++
+			res.Checks = append(res.Checks, "cpiofile", "cpioread")
+			ask(req.String(), func(ans string) {
+				got, _ := wire.UnH(ans)
+				if got != string(x.Payload) {
+					res.f04("cpio-bytes-differ-from-model", "the cpio payload differs from the cpio model's rendering of its own entries: "+c34FirstDiff(got, string(x.Payload)))
+				}
+			})
+			ask("cpioread "+wire.H(string(x.Payload)), func(ans string) {
+				if ans != want.String() {
+					res.f04("cpio-lean-reader-disagrees", fmt.Sprintf("the Lean cpio reader answers %.300q, the Go reader found %.300q", ans, want.String()))
+				}
+			})
+		} else if len(x.Payload) > 0 {
+			res.TarSkipped++
+		}
 		res.check(x.CpioTrailerOK, "cpio-no-trailer", "the cpio payload has no TRAILER!!! entry")
 		rest := x.CpioRest
 		if rest < 0 || rest > len(x.Payload) {
